@@ -664,6 +664,17 @@ def lossTail (P : Params) (tail : Bytes) : Bytes := if P.lossless then tail else
 are never read; otherwise nothing was written yet). -/
 def StartOK (P : Params) (w : W) : Prop := P.minChunk = 0 ∨ (w.cur = none ∧ w.uncN = 0)
 
+theorem startOK_spill {P : Params} {w : W} (h : StartOK P w) : StartOK P (spillGz w) := by
+  rcases h with h | ⟨h1, h2⟩
+  · exact Or.inl h
+  · right
+    unfold spillGz flushGz
+    simp [h1, h2]
+
+theorem spillGz_toc (w : W) : (spillGz w).toc = w.toc := by
+  unfold spillGz flushGz
+  cases hc : w.cur <;> simp
+
 theorem startOK_linv {P : Params} {w : W} (h : StartOK P w) : LInv P w ⟨w.cwN, 0⟩ := by
   rcases h with h | ⟨h1, h2⟩
   · exact Or.inl h
@@ -676,13 +687,17 @@ theorem appendTar_spec (P : Params) (hc : 0 < P.chunk) (w w' : W) (ents : List T
     ∃ gs, w'.toc = w.toc ++ gs.flatten ∧ Forall2 EntryToc (keep ents) gs ∧
       (s → AllGood w'.view ents gs.flatten) := by
   unfold appendTar at h
-  cases h1 : appendEntries P (w, ⟨w.cwN, 0⟩) ents with
+  have hsp : Tr w (spillGz w) [] := flushGz_tr hinv
+  cases h1 : appendEntries P (spillGz w, ⟨(spillGz w).cwN, 0⟩) ents with
   | none => simp [h1] at h
   | some st =>
     obtain ⟨w1, loc1⟩ := st
     simp only [h1] at h
     obtain ⟨htr, _, hlos, gs, htoc, hfa, hag⟩ :=
-      appendEntries_spec P hc s ents w _ w1 loc1 hinv (fun h => startOK_linv (hs h)) h1
+      appendEntries_spec P hc s ents (spillGz w) _ w1 loc1 hsp.inv
+        (fun h => startOK_linv (startOK_spill (hs h))) h1
+    rw [spillGz_toc] at htoc
+    have htr : Tr w w1 (tarStream ents) := by simpa using Tr.trans hsp htr
     by_cases hw : P.lossless = true ∧ tail ≠ []
     · simp only [hw, ne_eq, not_false_eq_true, and_self, if_true] at h
       simp at h
